@@ -184,6 +184,7 @@ def build():
          ensures=[E('val', '*r == old(self.storage).data@[self.id]'),
                   E('map', 'map_inserted(old(self.storage).data, final(self.storage).data, self.id, *final(r))'),
                   E('wf', 'final(self.storage).data.wf()'),
+                  E('ents', 'final(self.storage).entities == old(self.storage).entities'),
                   E('events', 'final(self.storage).data.log() == old(self.storage).data.log() + old(self.storage).data.inner.ev_get_mut(self.id)', 'C12')])
     u.fn(EN, ["impl<'a, 'b, T, D> OccupiedEntry<'a, 'b, T, D>", 'fn insert'], ret='r', props='C04 C12', impl_header=OH, key='OccupiedEntry::insert', rules=N8,
          requires=OREQ('old(self)'),
@@ -203,6 +204,7 @@ def build():
          requires=[E('wf', 'self.storage.data.wf()'), E('ents', 'ent_ok(self.storage.entities)'), E('vacant', '!self.storage.data@.dom().contains(self.id)')],
          ensures=[E('val', '*r == component'),
                   E('map', 'map_inserted(old(self.storage).data, final(self.storage).data, self.id, *final(r))'),
+                  E('ents', 'final(self.storage).entities == old(self.storage).entities'),
                   E('wf', 'final(self.storage).data.wf()')])
     SH = "impl<'a, 'b, 'd, T> StorageEntry<'a, 'b, 'd, T> where T: Component,"
     OC = 'self->Occupied_0'
